@@ -15,6 +15,9 @@ R-C32.3  explicit rejections: check_signature rejects every unsupported paramete
          `as` in with-items, async generators are rejected.
 R-C32.4  a built statement is dropped only when it is a compiler temporary.
 R-C32.5  calls interpreted by callee name (comptime/py, dagger/control/power) read their keywords (c32_special.py).
+R-C32.6  `CFGBuilder.visit_stmts` interpreted on statement sequences over {plain, jumping, `_@functional` pseudo-decorator}: every
+         statement reaches the visitor once, in order; a sequence with the pseudo-decorator -- also as the last statement of a
+         block -- ends in an error, never with the statement skipped (c32_stmts.py).
 """
 
 from __future__ import annotations
@@ -388,6 +391,10 @@ def run(ctx: Ctx) -> None:
     # ------------------------------------------------------------ R-C32.5 special-form calls read their keywords
     from . import c32_special
     c32_special.run(ctx)
+
+    # ------------------------------------------------------------ R-C32.6 the statement loop drops nothing
+    from . import c32_stmts
+    c32_stmts.run(ctx)
 
 
 def _calls_at(m) -> list[ast.Call]:
